@@ -82,10 +82,22 @@ func runC07(env *Env, tier string) {
 		var engLogon RecvMsg
 		var ok bool
 		expectReset := false
+		unsolicited := false
 		if c.Initiator {
 			engLogon, ok = LastOfType(p.Recv, "A")
 			if !ok || engLogon.Conn != p.Conn {
 				env.Fatalf("initiator sent no Logon")
+			}
+			if ch.Chance("unanswered", 1, 6) {
+				// the peer goes away without answering the Logon: nothing was agreed on this connection
+				env.Note("round %d: initiator Logon 34=%d 141=%q left unanswered", round, engLogon.Seq(), engLogon.Str(141))
+				p.Drop()
+				env.Stat("fault_logon_unanswered")
+				carried = c07Take(s)
+				carriedMark = env.EventN()
+				p.EP = nil
+				env.Advance(500 * time.Millisecond)
+				continue
 			}
 			sentFlag := engLogon.Str(141) == "Y"
 			wantFlag := hasFlag && anyOpt && (c.ResetOnLogon || (before.S == 1 && before.T == 1))
@@ -107,9 +119,26 @@ func runC07(env *Env, tier string) {
 					env.Violate("C07/continuity", "initiator Logon carries MsgSeqNum %d, next outbound number before connecting was %d", engLogon.Seq(), before.S)
 					break
 				}
-				p.OutSeq = before.T
-				env.Note("round %d: initiator Logon 34=%d; peer answers 34=%d", round, engLogon.Seq(), p.OutSeq)
-				p.Send("A", p.LogonBody(c.HeartBtInt, false), MsgOpt{})
+				if peerFlag {
+					// the counterparty resets on its own: its answer carries ResetSeqNumFlag=Y and number 1
+					p.OutSeq = 1
+					env.Note("round %d: initiator Logon 34=%d; peer answers 34=1 with ResetSeqNumFlag=Y (unsolicited)", round, engLogon.Seq())
+					p.Send("A", p.LogonBody(c.HeartBtInt, true), MsgOpt{})
+					if p.Connected() || true {
+						aft := c07Take(s)
+						if resetCalls(s, mark) == 0 || aft.T != 2 {
+							env.Violate("C07/reset-flag-not-honoured", "initiator received a Logon with ResetSeqNumFlag=Y (number 1): store resets %d, expected inbound number now %d (want a reset and 2)", resetCalls(s, mark), aft.T)
+							break
+						}
+						env.Stat("probe_reset_flag_received_by_initiator")
+						logons++
+						unsolicited = true
+					}
+				} else {
+					p.OutSeq = before.T
+					env.Note("round %d: initiator Logon 34=%d; peer answers 34=%d", round, engLogon.Seq(), p.OutSeq)
+					p.Send("A", p.LogonBody(c.HeartBtInt, false), MsgOpt{})
+				}
 			}
 		} else {
 			expectReset = c.ResetOnLogon || peerFlag
@@ -154,7 +183,9 @@ func runC07(env *Env, tier string) {
 			continue
 		}
 		after := c07Take(s)
-		if expectReset {
+		if unsolicited {
+			// judged above; the traffic/ending phases below still run
+		} else if expectReset {
 			if after.S != 2 || after.T != 2 {
 				env.Violate("C07/reset-counters", "after a resetting logon exchange the counters are S=%d T=%d, want 2/2 (the Logon itself is number 1 on both sides)", after.S, after.T)
 				break
@@ -179,7 +210,9 @@ func runC07(env *Env, tier string) {
 			}
 			env.Stat("probe_continuity_logon")
 		}
-		logons++
+		if !unsolicited {
+			logons++
+		}
 		if env.Failed() {
 			break
 		}
@@ -237,8 +270,20 @@ func runC07(env *Env, tier string) {
 		pre := c07Take(s)
 		mark = env.EventN()
 		if ch.Chance("endbylogout", 1, 2) {
-			env.Note("round %d: peer logout", round)
-			r := p.Send("5", nil, MsgOpt{})
+			lo := MsgOpt{}
+			inSeq := true
+			switch ch.Weighted("logoutseq", []int{6, 2, 2}) {
+			case 1:
+				if pre.T > 1 {
+					lo.Seq = 1 + ch.Choose("lowlogout", pre.T-1)
+					inSeq = false
+				}
+			case 2:
+				lo.Seq = pre.T + 1 + ch.Choose("highlogout", 3)
+				inSeq = false
+			}
+			env.Note("round %d: peer logout 34=%d (expected %d)", round, map[bool]int{true: p.OutSeq, false: lo.Seq}[lo.Seq == 0], pre.T)
+			r := p.Send("5", nil, lo)
 			if _, ok := LastOfType(r, "5"); !ok {
 				env.Violate("C07/no-logout-reply", "peer Logout in sequence got no Logout reply: %s", summarize(r))
 				break
@@ -254,8 +299,12 @@ func runC07(env *Env, tier string) {
 				}
 				env.Stat("probe_reset_on_logout")
 			default:
-				if post.S != pre.S+1 || post.T != pre.T+1 {
-					env.Violate("C07/continuity", "logout exchange without reset option moved counters from S=%d T=%d to S=%d T=%d, want +1/+1", pre.S, pre.T, post.S, post.T)
+				wantT := pre.T + 1
+				if !inSeq {
+					wantT = pre.T // a Logout that is not the expected number is answered but not consumed
+				}
+				if post.S != pre.S+1 || post.T != wantT {
+					env.Violate("C07/continuity", "logout exchange without reset option moved counters from S=%d T=%d to S=%d T=%d, want S+1 and T=%d", pre.S, pre.T, post.S, post.T, wantT)
 				}
 				if n := resetCalls(s, mark); n != 0 {
 					env.Violate("C07/unagreed-reset", "store Reset called at logout with no reset option")
